@@ -56,6 +56,9 @@ def search(ctx):
         for lvl in (1, 3, 5):
             L = G.LEVELS[lvl]
             lines = G.corpus_lines("C07", L, be) + G.fixed_lines(L, be) + G.gen_lines(rng, L, be, 300, 30, {}, {})
+            if be == "bw":
+                for name, v, _ls in G.gcd_hard_values(L, 64, 40):
+                    lines += ["fp_is_square 0 %x" % L.mont(v), "fp_inv 0 %x" % L.mont(v)]
             cout = G.run_c(exes[(be, lvl)], lines)
             for l, c in zip(lines, cout):
                 v = G.oracle(L, be, l, c.split())
@@ -87,6 +90,9 @@ def run(ctx):
             if lvl == 1 and be == "ref":
                 for l in lines[20:24]:
                     ctx.sample(dict(backend=be, level=lvl, op=l[:160]))
+    for lvl in (1, 3, 5):
+        if ("bw", lvl) in exes:
+            G.gcd_sweep(ctx, exes[("bw", lvl)], G.LEVELS[lvl], "bw", thorough=not quick)
     ctx.coverage["operand_class_histogram"] = hist
     ctx.coverage["operation_histogram"] = ophist
     ctx.coverage["levels"] = [1, 3, 5]
